@@ -96,6 +96,13 @@ def build_defaults(case):
             sl = la.stop_line
             la.stop_line = StopLine(sl.start, sl.end, sl.line_marking) if flip() else \
                 StopLine(sl.start, sl.end, sl.line_marking, set(), set())
+        if flip() and flip():
+            # adjacency id and direction flag are independent optional fields of the format: a lanelet edited through
+            # its public setters can hold one without the other
+            if la.adj_left is not None and flip():
+                la.adj_left = None                       # the flag stays
+            elif la.adj_right is not None:
+                la.adj_right = None
         net.add_lanelet(la)
     for i in old.intersections:
         if flip():
